@@ -17,6 +17,49 @@ pub enum DrainHow {
     Iter,
 }
 
+/// Drops `h` the way a panicking thread drops what it owns: from the unwinding of a panic, so
+/// that `std::thread::panicking()` is true inside the handle's destructor.  The panic is raised
+/// with `resume_unwind` (no panic hook) and caught here.  The destructor is itself run under
+/// `catch_unwind`: when the scheduler tears the execution down while the destructor is suspended
+/// at a scheduling point it unwinds the thread with its own payload, and a second panic must not
+/// leave a destructor that runs during unwinding (the process would abort); the payload is
+/// carried out and resumed once the first unwinding is over.
+pub fn drop_while_unwinding<H>(h: H) {
+    use std::any::Any;
+    use std::panic::{catch_unwind, resume_unwind, AssertUnwindSafe};
+    struct Marker;
+    struct Carrier<H> {
+        h: Option<H>,
+        stash: *mut Option<Box<dyn Any + Send>>,
+    }
+    impl<H> Drop for Carrier<H> {
+        fn drop(&mut self) {
+            let h = self.h.take();
+            debug_assert!(std::thread::panicking());
+            crate::rt::set_deliberate_unwind(true);
+            let r = catch_unwind(AssertUnwindSafe(move || drop(h)));
+            crate::rt::set_deliberate_unwind(false);
+            if let Err(p) = r {
+                unsafe { *self.stash = Some(p) }
+            }
+        }
+    }
+    let mut stash: Option<Box<dyn Any + Send>> = None;
+    let sp = &mut stash as *mut Option<Box<dyn Any + Send>>;
+    let r = catch_unwind(AssertUnwindSafe(move || {
+        let _c = Carrier { h: Some(h), stash: sp };
+        resume_unwind(Box::new(Marker));
+    }));
+    match r {
+        Err(p) if p.is::<Marker>() => {}
+        Err(p) => resume_unwind(p),
+        Ok(()) => unreachable!(),
+    }
+    if let Some(p) = stash {
+        resume_unwind(p)
+    }
+}
+
 #[derive(Clone, Debug, PartialEq, Eq, Hash, Serialize, Deserialize)]
 pub enum Op {
     // ---- senders (`tx` selects among the thread's live senders)
@@ -30,6 +73,9 @@ pub enum Op {
     PollComplete { tx: u16 },
     CloneTx { tx: u16 },
     DropTx { tx: u16 },
+    /// the handle is dropped by the unwinding of a panic on the owning thread
+    /// (`std::thread::panicking()` is true inside its destructor)
+    DropTxUnw { tx: u16 },
     UnsubTx { tx: u16 },
     // ---- receivers
     TryRecv { rx: u16 },
@@ -44,6 +90,8 @@ pub enum Op {
     AddStream { rx: u16 },
     CloneRx { rx: u16 },
     DropRx { rx: u16 },
+    /// as `DropTxUnw`, for a receiver
+    DropRxUnw { rx: u16 },
     UnsubRx { rx: u16 },
     IntoSingle { rx: u16 },
     IntoMulti { rx: u16 },
@@ -104,6 +152,10 @@ pub struct ExecOpts {
     /// do not store the call log (very long churn runs)
     #[serde(default)]
     pub no_log: bool,
+    /// bit (p mod 16) set: the handles program p still owns when it ends are dropped by the
+    /// unwinding of a panic (the thread "dies") instead of by a normal return
+    #[serde(default)]
+    pub unwind_end: u16,
 }
 
 fn default_probe_bound() -> u64 {
@@ -122,6 +174,7 @@ impl Default for ExecOpts {
             probe_bound: 400,
             mem: false,
             no_log: false,
+            unwind_end: 0,
         }
     }
 }
@@ -245,6 +298,8 @@ pub struct Violation {
 
 #[derive(Clone, Debug, Default, Serialize, Deserialize)]
 pub struct Stats {
+    #[serde(default)]
+    pub unwinding_drops: u64,
     pub skipped_ops: u64,
     pub excluded_known: u64,
     pub probes: u64,
@@ -515,12 +570,17 @@ impl Ctx {
         }
     }
 
-    fn drop_tx(&mut self, i: usize, unsub: bool) {
+    fn drop_tx(&mut self, i: usize, unsub: bool, unwinding: bool) {
+        if unwinding {
+            self.sh.lock().stats.unwinding_drops += 1;
+        }
         let h = self.txs.remove(i);
         let kind = if unsub { CallKind::UnsubTx } else { CallKind::DropTx };
         self.call(kind, h.id, u32::MAX, None, move |_| {
             if unsub {
                 h.tx.unsubscribe();
+            } else if unwinding {
+                drop_while_unwinding(h);
             } else {
                 drop(h);
             }
@@ -611,7 +671,10 @@ impl Ctx {
         }
     }
 
-    fn drop_rx(&mut self, i: usize, unsub: bool) {
+    fn drop_rx(&mut self, i: usize, unsub: bool, unwinding: bool) {
+        if unwinding {
+            self.sh.lock().stats.unwinding_drops += 1;
+        }
         let h = self.rxs.remove(i);
         let kind = if unsub { CallKind::UnsubRx } else { CallKind::DropRx };
         let rxk = h.rx.kind();
@@ -619,6 +682,9 @@ impl Ctx {
             if unsub {
                 let b = h.rx.unsubscribe();
                 ((), Res::Bool(b))
+            } else if unwinding {
+                drop_while_unwinding(h);
+                ((), Res::Unit)
             } else {
                 drop(h);
                 ((), Res::Unit)
@@ -866,11 +932,15 @@ impl Ctx {
                 _ => self.skip(),
             },
             Op::DropTx { tx } => match pick(*tx, self.txs.len()) {
-                Some(i) => self.drop_tx(i, false),
+                Some(i) => self.drop_tx(i, false, false),
+                None => self.skip(),
+            },
+            Op::DropTxUnw { tx } => match pick(*tx, self.txs.len()) {
+                Some(i) => self.drop_tx(i, false, true),
                 None => self.skip(),
             },
             Op::UnsubTx { tx } => match pick(*tx, self.txs.len()) {
-                Some(i) => self.drop_tx(i, true),
+                Some(i) => self.drop_tx(i, true, false),
                 None => self.skip(),
             },
             Op::TryRecv { rx } => match pick(*rx, self.rxs.len()) {
@@ -1031,11 +1101,15 @@ impl Ctx {
                 _ => self.skip(),
             },
             Op::DropRx { rx } => match pick(*rx, self.rxs.len()) {
-                Some(i) => self.drop_rx(i, false),
+                Some(i) => self.drop_rx(i, false, false),
+                None => self.skip(),
+            },
+            Op::DropRxUnw { rx } => match pick(*rx, self.rxs.len()) {
+                Some(i) => self.drop_rx(i, false, true),
                 None => self.skip(),
             },
             Op::UnsubRx { rx } => match pick(*rx, self.rxs.len()) {
-                Some(i) => self.drop_rx(i, true),
+                Some(i) => self.drop_rx(i, true, false),
                 None => self.skip(),
             },
             Op::IntoSingle { rx } => match pick(*rx, self.rxs.len()) {
@@ -1186,7 +1260,7 @@ impl Ctx {
                     for _ in 0..*sends {
                         self.exec(&Op::Send { tx: s, max: 3 });
                     }
-                    self.drop_tx(last, false);
+                    self.drop_tx(last, false, false);
                 }
                 _ => self.skip(),
             },
@@ -1195,7 +1269,7 @@ impl Ctx {
                     self.exec(&Op::CloneRx { rx: *rx });
                     let last = self.rxs.len() - 1;
                     self.do_try_recv(last);
-                    self.drop_rx(last, *unsub);
+                    self.drop_rx(last, *unsub, false);
                 }
                 _ => self.skip(),
             },
@@ -1343,11 +1417,12 @@ impl Ctx {
             let rxs = std::mem::take(&mut self.rxs);
             self.sh.lock().returned.push((self.prog, txs, rxs));
         } else {
+            let unw = (self.sh.sc.opts.unwind_end >> (self.prog % 16)) & 1 == 1;
             while !self.txs.is_empty() {
-                self.drop_tx(0, false);
+                self.drop_tx(0, false, unw);
             }
             while !self.rxs.is_empty() {
-                self.drop_rx(0, false);
+                self.drop_rx(0, false, unw);
             }
         }
     }
